@@ -24,7 +24,14 @@ def exc_str(ex):
 def build(o, gam, cls=None, **extra):
     from score_analysis import Scores
     cls = cls or Scores
-    return cls(gam.arr(o["pos"]), gam.arr(o["neg"]), nb_easy_pos=o["ep"], nb_easy_neg=o["en"],
+    pos, neg = gam.arr(o["pos"]), gam.arr(o["neg"])
+    if gam.name == "half_mixed":
+        # integer-typed positives next to float negatives (possible when every positive is integral)
+        if len(pos) and np.all(pos == np.round(pos)):
+            pos = pos.astype(int)
+        elif len(neg) and np.all(neg == np.round(neg)):
+            neg = neg.astype(int)
+    return cls(pos, neg, nb_easy_pos=o["ep"], nb_easy_neg=o["en"],
                score_class=o["sc"], equal_class=o["ec"], **extra)
 
 
@@ -173,13 +180,13 @@ def threshold_event(ev, s, o, m, qs, gam, h=1, extra_targets=()):
             if key == "lin":
                 ta = np.asarray(getattr(s, "threshold_at_" + ALIAS[m])(rf, method=method))
                 e["alias_same"] = bool(np.array_equal(ta, t))
-                # scalar targets give scalars equal to the vector elements
-                ok = True
-                for j in (0, len(rs) // 2, len(rs) - 1):
-                    x = fn(float(rf[j]), method=method)
-                    ok = ok and np.ndim(x) == 0 and not isinstance(x, np.ndarray) \
-                        and float(x) == float(t[j])
-                e["scalar_same"] = bool(ok)
+            # scalar targets give plain scalars equal to the vector elements (every method,
+            # boundary and interior targets)
+            ok = e["scalar_same"]
+            for j in sorted({0, 1, len(rs) // 2, len(rs) - 2, len(rs) - 1} & set(range(len(rs)))):
+                x = fn(float(rf[j]), method=method)
+                ok = ok and np.ndim(x) == 0 and not isinstance(x, np.ndarray) and float(x) == float(t[j])
+            e["scalar_same"] = bool(ok)
     except Exception as ex:  # noqa
         e["exc"] = exc_str(ex)
     return e
